@@ -16,6 +16,7 @@ from concurrent.futures import ThreadPoolExecutor
 
 import common
 import vlib
+import c12mem
 
 LEVEL = 'model_checking'
 RULE = ('cases = controlled executions of the real driver.Driver host-thread protocol (application threads x runAsync x '
@@ -222,6 +223,9 @@ def run(ctx, selftest=False):
     # 3. binding self-test
     common.selftest_binding(ctx, tspec(CONFIGS[0]), first_trace, corruptions())
 
+    # 3b. memory effects of queues on the real timing platform (QueueMem.tla)
+    c12mem.run_component(ctx)
+
     # 4. auxiliary monitor (thorough): free-running multi-threaded application under the race detector
     if thorough or os.environ.get('VERIF_C12_RACE'):
         race_stress(ctx)
@@ -284,6 +288,8 @@ def race_stress(ctx):
 
 def replay(ctx, path):
     rp = json.load(open(path))['replay']
+    if isinstance(rp.get('driver'), dict) and rp['driver'].get('cmd') == 'c12mem':
+        return c12mem.replay_component(ctx, path)
     trace = rp['trace']
     cfg = tuple(rp['driver']['cfg'])
     cfg = cfg[:3] + (list(cfg[3]), cfg[4])
